@@ -21,18 +21,18 @@ fn full_input_stats_counters() {
     kani::assume(which <= 2);
     if which == 0 {
         s.rdh_seen();
-        assert!(unsafe { SENT_RDH_SEEN } + s.rdhs_seen as u64 == seen0 + 1, "[C14] every visited RDH is counted exactly once");
+        assert!(unsafe { IREC.rdh_seen } + s.rdhs_seen as u64 == seen0 + 1, "[C14] every visited RDH is counted exactly once");
     } else if which == 1 {
         s.rdh_filtered();
-        assert!(unsafe { SENT_RDH_FILTERED } + s.rdhs_filtered as u64 == filt0 + 1, "[C14] every RDH matching the filter is counted exactly once");
+        assert!(unsafe { IREC.rdh_filtered } + s.rdhs_filtered as u64 == filt0 + 1, "[C14] every RDH matching the filter is counted exactly once");
     } else {
         s.add_payload_size(sz);
-        assert!(unsafe { SENT_PAYLOAD } + s.payload_size_seen as u64 == pay0 + sz as u64, "[C14] payload bytes are accumulated exactly");
+        assert!(unsafe { IREC.payload } + s.payload_size_seen as u64 == pay0 + sz as u64, "[C14] payload bytes are accumulated exactly");
     }
-    let (a, b, c) = unsafe { (SENT_RDH_SEEN, SENT_RDH_FILTERED, SENT_PAYLOAD) };
+    let (a, b, c) = unsafe { (IREC.rdh_seen, IREC.rdh_filtered, IREC.payload) };
     let (pa, pb, pc) = (s.rdhs_seen as u64, s.rdhs_filtered as u64, s.payload_size_seen as u64);
     s.flush_stats();
-    assert!(unsafe { SENT_RDH_SEEN } == a + pa && unsafe { SENT_RDH_FILTERED } == b + pb && unsafe { SENT_PAYLOAD } == c + pc, "[C14] flushing reports exactly the pending counters");
+    assert!(unsafe { IREC.rdh_seen } == a + pa && unsafe { IREC.rdh_filtered } == b + pb && unsafe { IREC.payload } == c + pc, "[C14] flushing reports exactly the pending counters");
     core::mem::forget(s);
 }
 
@@ -47,16 +47,16 @@ fn bnd_input_stats_links() {
     kani::assume(l0 != l1);
     s.try_add_link(l0);
     s.try_add_link(l1);
-    assert!(unsafe { SENT_LINKS } == 2, "[C14] distinct links are each reported");
+    assert!(unsafe { IREC.links } == 2, "[C14] distinct links are each reported");
     s.try_add_link(l);
     let known = l == l0 || l == l1;
-    assert!(unsafe { SENT_LINKS } == if known { 2 } else { 3 }, "[C14] a link is reported exactly when it is new");
+    assert!(unsafe { IREC.links } == if known { 2 } else { 3 }, "[C14] a link is reported exactly when it is new");
     if !known {
-        assert!(unsafe { LAST_LINK } == l, "[C14] the reported link is the one observed");
+        assert!(unsafe { IREC.last_link } == l, "[C14] the reported link is the one observed");
     }
     let (f0, f): (u16, u16) = (kani::any(), kani::any());
     s.try_add_fee_id(f0);
     s.try_add_fee_id(f);
-    assert!(unsafe { SENT_FEES } == if f == f0 { 1 } else { 2 }, "[C14] a FEE id is reported exactly when it is new");
+    assert!(unsafe { IREC.fees } == if f == f0 { 1 } else { 2 }, "[C14] a FEE id is reported exactly when it is new");
     core::mem::forget(s);
 }
